@@ -32,5 +32,6 @@ for name, (prop, needs) in NEEDS.items():
         meta["must_pass_quick"] = ["C04", "C06", "C20"]
     if name.startswith("M"):
         meta["confirmed"] = "with the change applied the 73 existing tests pass (cargo test --workspace --offline)"
+        meta["ran"] = "cargo test --workspace --offline (73 passed) with the patch; tools/matrix.py <patch> C01..C20 (quick tier, fast profile)"
     json.dump(meta, open(f"{d}/meta.json", "w"), indent=1)
 print(len(caught), "matrix rows")
